@@ -12,3 +12,4 @@ pub mod a3;
 pub mod d1;
 pub mod d2;
 pub mod d3;
+pub mod g4;
